@@ -39,7 +39,7 @@ ASSUMPTIONS = ['roles in credentials are a list of strings (the statement\'s pre
 LEVEL_TEXT = ('Seeded hostile fuzzing with an exception-surface oracle; the inputs that crash are syntactically odd, so a '
               'fragment-based generator plus a curated alphabet is the appropriate level (no finite enumeration exists).')
 LEVEL_NOTE = 'trusted: the list of documented exceptions taken from the statement; the curated "certainly unevaluable" list'
-PLAN = {'quick': dict(shards=4, wall=60), 'thorough': dict(shards=16, wall=400)}
+PLAN = {'quick': dict(shards=4, wall=120), 'thorough': dict(shards=16, wall=400)}
 MIN = {'empty_segment_path_decisions': 1000, 'container_enforce_calls': 3000, 'overlapping_evaluations': 200, 'deleted_reference_decisions': 100, 'file_override_enforce_calls': 100, 'same_target_comparisons': 500, 'evaluations': 5000, 'enforce_calls': 10000, 'hostile_leaves': 5000, 'unevaluable_leaf_rules': 500}
 ANCHORS = ['oslo_policy._checks:GenericCheck.__call__', 'oslo_policy._checks:GenericCheck._find_in_dict',
            'oslo_policy._checks:RoleCheck.__call__', 'oslo_policy.policy:Enforcer.enforce']
